@@ -433,6 +433,18 @@ fn normalise_model(s: &str) -> String {
 // running one case
 // ------------------------------------------------------------------------------------------------
 
+/// local counters of a worker thread, merged into the report by the main thread
+#[derive(Default)]
+struct Counters(BTreeMap<String, u64>);
+impl Counters {
+    fn count(&mut self, k: &str) {
+        *self.0.entry(k.into()).or_insert(0) += 1;
+    }
+    fn add(&mut self, k: &str, n: u64) {
+        *self.0.entry(k.into()).or_insert(0) += n;
+    }
+}
+
 struct Outcome {
     /// (kind, sig, impl, model, expect)
     fails: Vec<(String, String, String, String, String)>,
@@ -546,7 +558,7 @@ fn diff_sig(c: &Case, sh: &SheetCase, got: &str, want: &BTreeMap<(u32, u32), Str
     }
 }
 
-fn run_case(c: &Case, drv: &mut Driver, rep: Option<&mut Report>) -> Outcome {
+fn run_case(c: &Case, drv: &mut Driver, rep: Option<&mut Counters>) -> Outcome {
     let mut out = Outcome { fails: vec![] };
     let classes = style_classes(c);
     let fm: String = if classes.is_empty() { "-".into() } else { classes.iter().map(|x| x.to_string()).collect() };
@@ -1561,21 +1573,27 @@ fn sweeps(_args: &Args, _rng: &mut Rng, _drv: &mut Driver, rep: &mut Report) {
 
 // ------------------------------------------------------------------------------------------------
 
-fn record(c: &Case, out: &Outcome, drv: &mut Driver, rep: &mut Report) {
+type Fail = (String, String, String, String, String, String); // kind, sig, input, impl, model, expect
+
+/// shrink each failure whose signature this worker has not seen yet; returns the failures with their inputs
+fn finalize(c: &Case, out: &Outcome, drv: &mut Driver, seen: &mut std::collections::HashSet<String>) -> Vec<Fail> {
+    let mut v = vec![];
     for (kind, sig, got, model, expect) in &out.fails {
-        let known = rep.failures.iter().any(|f| f.kind == *kind && f.sig == *sig);
+        let key = format!("{kind}|{sig}");
+        let known = !seen.insert(key);
         let small = if known || kind == "model_vs_spec" { c.clone() } else { shrink(c, drv, kind, sig) };
         if small != *c {
             if let Some(f) = run_case(&small, drv, None).fails.iter().find(|f| f.0 == *kind && f.1 == *sig) {
-                rep.fail(kind, sig, &small.to_text(), &f.2, &f.3, &f.4);
+                v.push((kind.clone(), sig.clone(), small.to_text(), f.2.clone(), f.3.clone(), f.4.clone()));
                 continue;
             }
         }
-        rep.fail(kind, sig, &c.to_text(), got, model, expect);
+        v.push((kind.clone(), sig.clone(), c.to_text(), got.clone(), model.clone(), expect.clone()));
     }
+    v
 }
 
-fn count_case(c: &Case, rep: &mut Report) {
+fn count_case(c: &Case, rep: &mut Counters) {
     rep.count(&format!("fault_{}", c.fault));
     rep.count(&format!("sheets_{}", c.sheets.len()));
     rep.count(if c.date1904 { "date1904" } else { "date1900" });
@@ -1652,7 +1670,7 @@ fn main() {
 
     if let Some(r) = &args.replay {
         let c = Case::parse(r);
-        let out = run_case(&c, &mut drv, Some(&mut rep));
+        let out = run_case(&c, &mut drv, None);
         rep.case(r, true);
         for (kind, sig, got, model, expect) in &out.fails {
             rep.fail(kind, sig, r, got, model, expect);
@@ -1661,44 +1679,97 @@ fn main() {
         return;
     }
 
+    let merge = |rep: &mut Report, cn: Counters| {
+        for (k, v) in cn.0 {
+            rep.add(&k, v);
+        }
+    };
+    let mut seen = std::collections::HashSet::new();
+
     // corpus first
     for c in corpus() {
         let text = c.to_text();
         debug_assert_eq!(Case::parse(&text), c);
-        let out = run_case(&c, &mut drv, Some(&mut rep));
+        let mut cn = Counters::default();
+        let out = run_case(&c, &mut drv, Some(&mut cn));
         rep.case(&text, true);
-        rep.count("corpus");
-        count_case(&c, &mut rep);
-        record(&c, &out, &mut drv, &mut rep);
+        cn.count("corpus");
+        count_case(&c, &mut cn);
+        merge(&mut rep, cn);
+        for f in finalize(&c, &out, &mut drv, &mut seen) {
+            rep.fail(&f.0, &f.1, &f.2, &f.3, &f.4, &f.5);
+        }
     }
 
     // unit level
     sweeps(&args, &mut rng, &mut drv, &mut rep);
 
-    // generated workbooks
-    let n = args.count(2000, 200_000);
-    for i in 0..n {
-        let mut r = rng.fork();
-        let mut c = gen_case(&mut r);
-        if i % 8 == 7 {
-            inject_fault(&mut r, &mut c);
-        }
-        let text = c.to_text();
-        let nontrivial = c.sheets.iter().any(|s| s.items.iter().any(|f| matches!(&f.it, It::Cell { kind, .. } if *kind != Kind::Blank)));
-        let t0 = std::time::Instant::now();
-        let out = run_case(&c, &mut drv, Some(&mut rep));
-        let ms = t0.elapsed().as_millis();
-        rep.add("time_ms_cases", ms as u64);
-        if ms > 300 {
-            rep.count("slow_cases_over_300ms");
-            if std::env::var("C03_TIMING").is_ok() {
-                eprintln!("slow case {i}: {ms} ms, {} bytes of description, fault {}", text.len(), c.fault);
-            }
-        }
-        rep.case(&text, nontrivial);
-        count_case(&c, &mut rep);
-        record(&c, &out, &mut drv, &mut rep);
+    // generated workbooks, on several worker threads (each with its own driver); the results are applied to the
+    // report in case order, so a seed gives the same report whatever the scheduling
+    let n = args.count(2000, 200_000) as usize;
+    let seeds: std::sync::Arc<Vec<u64>> = std::sync::Arc::new((0..n).map(|_| rng.next()).collect());
+    let avail = std::thread::available_parallelism().map(|x| x.get()).unwrap_or(4);
+    let threads = (if args.thorough() { 14 } else { 4 }).min(avail).max(1).min(n.max(1));
+    struct Res {
+        text: String,
+        nontrivial: bool,
+        counters: Counters,
+        fails: Vec<Fail>,
     }
+    let (tx, rx) = std::sync::mpsc::sync_channel::<(usize, Res)>(512);
+    let mut handles = vec![];
+    for t in 0..threads {
+        let tx = tx.clone();
+        let seeds = seeds.clone();
+        let driver = args.driver.clone();
+        handles.push(std::thread::spawn(move || {
+            let mut drv = Driver::spawn(&driver);
+            let mut seen = std::collections::HashSet::new();
+            let mut i = t;
+            while i < seeds.len() {
+                let mut r = Rng(seeds[i]);
+                let mut c = gen_case(&mut r);
+                if i % 8 == 7 {
+                    inject_fault(&mut r, &mut c);
+                }
+                let text = c.to_text();
+                let nontrivial = c.sheets.iter().any(|s| s.items.iter().any(|f| matches!(&f.it, It::Cell { kind, .. } if *kind != Kind::Blank)));
+                let mut cn = Counters::default();
+                let t0 = std::time::Instant::now();
+                let out = run_case(&c, &mut drv, Some(&mut cn));
+                let ms = t0.elapsed().as_millis();
+                cn.add("time_ms_cases", ms as u64);
+                if ms > 300 {
+                    cn.count("slow_cases_over_300ms");
+                }
+                count_case(&c, &mut cn);
+                let fails = finalize(&c, &out, &mut drv, &mut seen);
+                if tx.send((i, Res { text, nontrivial, counters: cn, fails })).is_err() {
+                    return;
+                }
+                i += threads;
+            }
+        }));
+    }
+    drop(tx);
+    let mut pending: BTreeMap<usize, Res> = BTreeMap::new();
+    let mut next = 0usize;
+    for (i, res) in rx {
+        pending.insert(i, res);
+        while let Some(res) = pending.remove(&next) {
+            rep.case(&res.text, res.nontrivial);
+            merge(&mut rep, res.counters);
+            for f in &res.fails {
+                rep.fail(&f.0, &f.1, &f.2, &f.3, &f.4, &f.5);
+            }
+            next += 1;
+        }
+    }
+    for h in handles {
+        h.join().expect("worker thread");
+    }
+    assert_eq!(next, n, "every generated case was reported");
+    rep.add("worker_threads", threads as u64);
     rep.notes.push("third-party layers exercised but not modelled: zip container, encoding_rs UTF-16 decoding, quick-xml (workbook.bin.rels)".into());
     rep.notes.push("f64 operations of the RK path (/100.0, i64→f64) are executed natively on both sides and compared by bit pattern".into());
     rep.write(&args.out);
